@@ -156,7 +156,7 @@ def gen_case(rnd, prop, tier):
             calls.append(dict(seed=rnd.getrandbits(32), scale=rnd.choice([0.3, 1.0, 3.0, 8.0]), total=rnd.choice([1.0, 1.0, 10.0, 250.0, 1e4]),
                               sweeps=rnd.choice(['enough', 'enough', 1, 2, 5]), sub=rnd.random() < 0.25))
         return dict(engine='F', attrs=attrs, sizes=sizes, cliques=cliques, oracle=oracle, structure=structure, calls=calls,
-                    total0=rnd.choice([1.0, 10.0, 100.0]), tie=rnd.choice([None, None, rnd.getrandbits(32)]))
+                    total0=rnd.choice([1.0, 10.0, 100.0]), tie=rnd.choice([None, None, rnd.getrandbits(32)]), fresh_names=rnd.random() < 0.35)
     # C18
     oracle = rnd.choice(['convex', 'approx', 'pairwise'])
     disjoint = rnd.random() < 0.35
@@ -181,9 +181,11 @@ def gen_case(rnd, prop, tier):
     calls = []
     for k in range(rnd.choice([1, 1, 2])):
         sub = sorted(rnd.sample(range(len(pool)), rnd.randint(1, len(pool)))) if (k > 0 or rnd.random() < 0.3) else list(range(len(pool)))
+        if k > 0 and rnd.random() < 0.5:
+            sub = list(calls[-1]['sub'])        # the same measurement (clique) list again, typically with another total
         if disjoint:
             sub = list(range(len(pool)))
-        calls.append(dict(sub=sub, total=rnd.choice([None, total_true, total_true]), iters=rnd.choice([1, 2, 3, 5, 10, 30, 60, 120, 300])))
+        calls.append(dict(sub=sub, total=rnd.choice([None, total_true, total_true, 2 * total_true, 0.5 * total_true]), iters=rnd.choice([1, 2, 3, 5, 10, 30, 60, 120, 300])))
     return dict(engine='F', attrs=attrs, sizes=sizes, cliques=cliques, oracle=oracle, disjoint=disjoint, pool=pool, calls=calls, warm=rnd.random() < 0.4,
                 total_true=total_true, truth_seed=rnd.getrandbits(32))
 
@@ -232,6 +234,10 @@ def run_c16(mbi, case):
     dom = mbi.Domain(attrs, sizes)
     cliques = [tuple(c) for c in case['cliques']]
     viol, faults, probes = [], {}, {}
+    if case.get('fresh_names'):
+        cliques = gen.fresh_cliques(cliques)        # equal names, distinct string objects
+        if any(len(a) > 1 for a in attrs):
+            faults['clique-names-distinct-objects'] = 1
     steps = 0
     kind = case['oracle']
     digests = []
@@ -403,6 +409,9 @@ def run_c18(mbi, case):
             viol.append(v.as_dict())
             break
         total = float(model.total)
+        if call['total'] is not None and abs(total - call['total']) > 1e-9 * call['total']:
+            viol.append(Violation('c18-total', 'c18-total:' + oracle, 'the caller supplied total %r but the returned model has total %r (%s)' % (call['total'], model.total, tag)).as_dict())
+            break
         tables = {}
         bad = False
         for Q, y, sigma, proj in meas:
@@ -509,6 +518,10 @@ def shrink(case, prop):
             del c['calls'][k]
             yield c
     if prop == 'C16':
+        if case.get('fresh_names'):
+            c = copy.deepcopy(case)
+            c['fresh_names'] = False
+            yield c
         if case.get('tie') is not None:
             c = copy.deepcopy(case)
             c['tie'] = None
